@@ -233,6 +233,24 @@ CHECKS.append(
              "(unsmoothed) bootstrap. Trusted: TLC, PhiTable.tla (generated once with Python decimal, cross-checked vs libm/continued fraction/A&S), 12-digit and rank/bit "
              "encodings in c17.py, wrapping bintest.p_adjust_bh to observe unadjusted p. Premise: sorted positive-width tables with a weight column, non-overlapping segments, "
              "z defined (not weight 1 with residual 0). Conventions taken from the code: stdev ddof 0, SEM ddof 1, MAD x 1.4826."})
+CHECKS.append(
+    {"id": "C15", "level": "model_checking",
+     "technique": "TLA+ spec (Centering.tla on Stats.tla / Num.tla / Karyotype.tla; the estimator inside center_all is a logged abstract function) + TLC exhaustive small scopes replayed into cnvlib.cnary + TLC trace validation of random bin tables and of a seeded sex-scenario ensemble",
+     "design_ref": "DESIGN.md section 8 C15, 3.2, 6, 9, 13",
+     "text": "Every estimator call made inside center_all (pd.Series.median/mean, descriptives.modal_location/biweight_location, wrapped for the call) is recorded with its "
+             "arguments and result. TLC checks that these calls are exactly the per-chromosome autosomal multisets in order followed by one call on their results (or one call "
+             "on all autosomal bins), PAR-X included when a genome is given and null-coverage bins excluded when asked; that out - in is one constant equal to minus the last "
+             "result (exact for the median on the dyadic grid, <= 1e-9 otherwise); that differences between bins and all other columns are untouched; that the estimator of the "
+             "result is 0, recomputed by TLC for median / mean / biweight and re-applied from the log for the mode. The A-layer (drop_low_coverage, autosomes, groupby order, "
+             "shift_xx, expect_flat_log2) is model-checked against the P-layer over all small tables on the PAR and null-coverage boundaries x estimator x by_chrom x skip_low x "
+             "genome x naming, and every enumerated state is replayed into the real code. Sex: a seeded ensemble inside the quantifier must give guess_xx = do_sex = `cnvkit.py "
+             "sex` = the scenario's sex, shift_xx must move exactly the X bins by minus their expected level, and expect_flat_log2 must be 0 / -1 on Y / -1 on X only for a male "
+             "reference, also enumerated over the whole configuration grid incl. PAR coordinates.",
+     "note": "Trusted: TLC, the wrappers that log estimator calls, 12-decimal fixed-point encoding, sha1 digest of untouched columns, harness table construction. Not decided: the "
+             "value of the mode (KDE) - only orchestration, range and zero by re-application; a tied mode on a symmetric multiset is counted undecided. Sex inference is judged "
+             "as ensemble outcome only (10,500 scenarios calibrated on the unchanged tree, 0 failures). shift_xx is claimed only without diploid_parx_genome (the property does "
+             "not range over it there). PAR-Y under a genome in expect_flat_log2 is left free. Premise: one naming style per table; a table whose autosome-named bins are all "
+             "null-coverage and skipped is out of scope."})
 
 _ALL = [f"C{n:02d}" for n in range(1, 21)]
 _claimed = {c["id"] for c in CHECKS}
